@@ -94,7 +94,7 @@ func c2Senders(w *W, s mangos.Socket, kind, who string, nsend, nmsg int, accepte
 
 func c02Pair(w *W) {
 	kind := []string{"pair", "xpair", "pair1", "xpair1"}[w.Choose(simrt.SShape, 4)]
-	tran := w.simFallback([]string{"inproc", "sim", "simipc", "tcp", "ipc", "tls+tcp"}[w.Choose(simrt.SShape, 6)])
+	tran := w.simFallback([]string{"inproc", "sim", "simipc", "tcp", "ipc", "tls+tcp", "ws", "wss"}[w.Choose(simrt.SShape, 8)])
 	qs := []int{0, 1, 2, 128}
 	wq, rq := qs[w.Choose(simrt.SShape, 4)], qs[w.Choose(simrt.SShape, 4)]
 	nsend := 1 + w.Choose(simrt.SShape, 3)
@@ -278,7 +278,7 @@ func c02Pair(w *W) {
 func c02Push(w *W) {
 	kind := []string{"push", "xpush"}[w.Choose(simrt.SShape, 2)]
 	pkind := []string{"pull", "xpull"}[w.Choose(simrt.SShape, 2)]
-	tran := w.simFallback([]string{"inproc", "sim", "simipc", "tcp", "ipc", "tls+tcp"}[w.Choose(simrt.SShape, 6)])
+	tran := w.simFallback([]string{"inproc", "sim", "simipc", "tcp", "ipc", "tls+tcp", "ws", "wss"}[w.Choose(simrt.SShape, 8)])
 	qs := []int{0, 1, 2, 128}
 	wq, rq := qs[w.Choose(simrt.SShape, 4)], qs[w.Choose(simrt.SShape, 4)]
 	npull := 1 + w.Choose(simrt.SShape, 3)
@@ -426,7 +426,7 @@ func init() {
 // second peer receives from one sender task ascends.
 func c02Handover(w *W) {
 	kind := []string{"pair", "xpair", "pair1", "xpair1"}[w.Choose(simrt.SShape, 4)]
-	tran := w.simFallback([]string{"sim", "simipc", "inproc", "tcp", "ipc", "tls+tcp"}[w.Choose(simrt.SShape, 6)])
+	tran := w.simFallback([]string{"sim", "simipc", "inproc", "tcp", "ipc", "tls+tcp", "ws", "wss"}[w.Choose(simrt.SShape, 8)])
 	wq := []int{8, 2, 128, 1}[w.Choose(simrt.SShape, 4)]
 	nmsg := 6 + w.Choose(simrt.SShape, 20)
 	w.SetShape("kind", kind)
